@@ -14,7 +14,9 @@ class StopJob(Exception):
 
 
 class Prover:
-    def __init__(self, solver, timeout_ms, max_failures=3):
+    def __init__(self, solver, timeout_ms, max_failures=3, soft_witness=False):
+        self.soft_witness = soft_witness
+        self.witness_unknown = 0
         self.s = solver
         self.timeout_ms = timeout_ms
         self.max_failures = max_failures
@@ -42,7 +44,9 @@ class Prover:
             self.vacuous += 1
             self.inconclusive.append("vacuous path (unsatisfiable path condition) %s" % what)
             return False
-        self.inconclusive.append("reachability witness unknown %s" % what)
+        self.witness_unknown += 1
+        if not self.soft_witness:
+            self.inconclusive.append("reachability witness unknown %s" % what)
         return False
 
     def prove(self, name, goal, on_sat):
